@@ -407,9 +407,11 @@ func (s *evalSetup) evalOnce(flag *ldmodel.FeatureFlag, ctx ldcontext.Context, r
 			w := WEvent{Target: e.TargetFlagKey, Result: dumpResult(e.PrerequisiteResult), Excl: e.ExcludeFromSummaries}
 			if e.PrerequisiteFlag != nil {
 				w.Prereq, w.Version = e.PrerequisiteFlag.Key, e.PrerequisiteFlag.Version
+				// the flag the store returned for one of the keys looked up so far (not merely
+				// some flag of the store, nor an equal-looking one of an earlier store)
 				held := false
-				for _, sf := range s.cur().flags {
-					if sf == e.PrerequisiteFlag {
+				for _, lk := range s.cur().flagLookups {
+					if sf, ok := s.cur().flags[lk]; ok && sf == e.PrerequisiteFlag {
 						held = true
 					}
 				}
@@ -446,8 +448,12 @@ func (s *evalSetup) evalOnce(flag *ldmodel.FeatureFlag, ctx ldcontext.Context, r
 			}
 		}
 	}()
-	res := s.ev.Evaluate(flag, ctx, recorder)
+	var res evaluation.Result
+	written := captureStd(func() { res = s.ev.Evaluate(flag, ctx, recorder) })
 	obs.Result = dumpResult(res)
+	if written != "" {
+		obs.Outcome, obs.Panic = "panic", "the evaluation wrote to the standard streams or the standard logger: "+written
+	}
 	return obs
 }
 
